@@ -181,6 +181,73 @@ func genPayload(it WireItem) []byte {
 			}
 		}
 		return b
+	case "nal_types":
+		// well-framed AVCC / HVCC lists of tiny NAL units whose first byte runs over every NAL type (aggregation and
+		// fragmentation types of the RTP payload formats included), 1..4 bytes each
+		hdr := [][]byte{{0x27, 1, 0, 0, 0}, {0x17, 1, 0, 0, 0}, {0x2c, 1, 0, 0, 0}, {0x1c, 1, 0, 0, 0}}[it.Shape%4]
+		b := append([]byte{}, hdr...)
+		x := it.Seed
+		for j := 0; j < 1+n%3; j++ {
+			l := 1 + int(x>>8)%4
+			first := byte(x)
+			if it.Shape%4 < 2 {
+				first = byte(x)&0x60 | byte(x>>16)%32 // AVC: every type with some NRI
+			} else {
+				first = byte(x>>16) % 64 << 1 // HEVC: every type
+			}
+			b = append(b, 0, 0, 0, byte(l), first)
+			b = append(b, []byte{0, 0, 0}[:l-1]...)
+			if (x>>24)%3 == 0 && l > 1 {
+				copy(b[len(b)-l+1:], randBytes(x, l-1))
+			}
+			x = x*6364136223846793005 + 1442695040888963407
+		}
+		return b
+	case "seqhdr_annexb":
+		// sequence headers that carry Annex-B data instead of a configuration record (lal accepts that form for HEVC):
+		// start codes with nothing between them, parameter sets cut short, garbage
+		b := [][]byte{{0x1c, 0, 0, 0, 0}, {0x17, 0, 0, 0, 0}, {0x90, 'h', 'v', 'c', '1'}}[it.Shape%3]
+		b = append([]byte{}, b...)
+		x := it.Seed
+		for j := 0; j < 1+n%6; j++ {
+			b = append(b, 0, 0, 0, 1)
+			switch x % 6 {
+			case 0: // empty NAL
+			case 1:
+				b = append(b, 0x40, 1, 0x0c)
+			case 2:
+				b = append(b, 0x42, 1, 1)
+			case 3:
+				b = append(b, 0x44, 1, 0xc0)
+			case 4:
+				b = append(b, randBytes(x, int(x>>8)%20)...)
+			case 5:
+				b = append(b, 0)
+			}
+			x = x*6364136223846793005 + 1442695040888963407
+		}
+		if n%4 == 0 {
+			b = append(b, 0, 0, 0, 1) // ends with a start code
+		}
+		return b
+	case "meta_nest_arr", "meta_nest_ecma":
+		var f rtmpc.Amf
+		if it.Shape%2 == 0 {
+			f.Str("@setDataFrame")
+		}
+		f.Str("onMetaData")
+		b := f.B
+		if it.Shape%4 < 2 {
+			b = append(b, 8, 0, 0, 0, 1, 0, 1, 'k') // the usual ecma array, its one value being the nest
+		}
+		for i := 0; i < n; i++ {
+			if it.Gen == "meta_nest_arr" {
+				b = append(b, 10, 0, 0, 0, 1)
+			} else {
+				b = append(b, 8, 0, 0, 0, 1, 0, 1, 'a')
+			}
+		}
+		return append(b, 5)
 	case "valid_video":
 		return media.VideoPayload(media.CodecAVC, it.Shape%2 == 0, 0, [][]byte{media.AvcNal(map[bool]int{true: 5, false: 1}[it.Shape%2 == 0], 3, 9, int(it.Seed%1000), 0, maxInt(1, n))})
 	case "valid_audio":
